@@ -92,10 +92,6 @@ const TARGETS: &[Target] = &[
     Target { name: "trim_regex", file: "src/cut_str.rs", impl_trait: None, impl_self: None,
              func: "trim_regex", calls: &[], deps: &[],
              imports: "Model.Scan Model.Regex Model.Opt Model.CutStr Tie.RsStr Tie.RsRegex", ret_muts: false, fuel: "" },
-    Target { name: "read_and_cut_lines", file: "src/cut_lines.rs", impl_trait: None, impl_self: None,
-             func: "read_and_cut_lines", calls: &[("is_forward_only", "gen_ubl_is_forward_only"), ("cut_lines_forward_only", "model_lines_forward"), ("cut_lines", "model_lines_buffered")],
-             deps: &["ubl_is_forward_only"],
-             imports: "Model.Scan Model.Regex Model.Opt Model.CutStr Model.CutLines Tie.RsList Tie.RsLines", ret_muts: false, fuel: "" },
     Target { name: "compress_regex", file: "src/cut_str.rs", impl_trait: None, impl_self: None,
              func: "compress_delimiter_with_regex", calls: &[("replace_all", "rx_replace_all")], deps: &[],
              imports: "Model.Scan Model.Regex Model.Opt Model.CutStr Tie.RsRegex", ret_muts: false, fuel: "" },
@@ -130,6 +126,10 @@ const TARGETS: &[Target] = &[
              calls: &[("matches", "gen_ub_matches")], deps: &["ub_matches"],
              imports: "Model.Scan Model.Regex Model.Opt Model.Utf8 Model.CutStr Model.CutLines Tie.RsOpt Tie.RsStr Tie.RsList Tie.RsLines", ret_muts: false,
              fuel: "(S (length stdin + length (items (o_bounds opt))))" },
+    Target { name: "read_and_cut_lines", file: "src/cut_lines.rs", impl_trait: None, impl_self: None,
+             func: "read_and_cut_lines", calls: &[("is_forward_only", "gen_ubl_is_forward_only"), ("cut_lines_forward_only", "gen_lines_forward"), ("cut_lines", "gen_cut_lines")],
+             deps: &["ubl_is_forward_only", "lines_forward", "cut_lines"],
+             imports: "Model.Scan Model.Regex Model.Opt Model.CutStr Model.CutLines Tie.RsList Tie.RsLines", ret_muts: false, fuel: "" },
     Target { name: "fast_try_from", file: "src/fast_lane.rs", impl_trait: Some("TryFrom"), impl_self: Some("FastOpt"),
              func: "try_from", calls: &[], deps: &[], imports: "Model.Scan Model.Regex Model.Opt Tie.RsOpt", ret_muts: false, fuel: "" },
     Target { name: "stream_try_from", file: "src/stream.rs", impl_trait: Some("TryFrom"), impl_self: Some("StreamOpt"),
